@@ -16,6 +16,7 @@ func init() {
 		Explain: "Decides the ordering and guard clauses that make a graceful leave survive restarts: Serf.Leave notifies the snapshotter (when one exists) before the leave is applied or broadcast; the snapshotter's leave case sets leaving, clears the alive set exactly on the !rejoinAfterLeave edge BEFORE appending the leave record (a compaction inside that append serialises the in-memory set), then flushes and syncs; all recorders are behind !leaving; the alive set has a closed list of writers; replay resets state on a leave line exactly when rejoin-after-leave is off; compaction serialises the in-memory alive set. Events racing the leave notification in the channel are not covered.",
 		Run:     runC13,
 		Mutants: []Mutant{
+			{Name: "leave-handover-buffered", File: "serf/snapshot.go", Func: "func NewSnapshotter(", Old: "leaveCh:          make(chan struct{}),", New: "leaveCh:          make(chan struct{}, 1),", Expect: "R8"},
 			{Name: "replay-stops-at-leave", File: "serf/snapshot.go", Func: "func (s *Snapshotter) replay(", Old: "\t\t\ts.lastQueryClock = 0\n", New: "\t\t\ts.lastQueryClock = 0\n\t\t\tbreak\n", Expect: "R7"},
 			{Name: "compact-before-leave-marker", File: "serf/snapshot.go", Func: "func (s *Snapshotter) appendLine(", Old: "\tn, err := s.buffered.WriteString(l)\n", New: "\tif s.offset+int64(len(l)) > s.snapshotMaxSize() {\n\t\tif err := s.compact(); err != nil {\n\t\t\treturn err\n\t\t}\n\t}\n\tn, err := s.buffered.WriteString(l)\n", Expect: "R6|appendLine"},
 			{Name: "clear-after-append", File: "serf/snapshot.go", Func: "func (s *Snapshotter) stream(", Old: "\t\t\tif !s.rejoinAfterLeave {\n\t\t\t\ts.aliveNodes = make(map[string]string)\n\t\t\t}\n\t\t\ts.tryAppend(\"leave\\n\")\n", New: "\t\t\ts.tryAppend(\"leave\\n\")\n\t\t\tif !s.rejoinAfterLeave {\n\t\t\t\ts.aliveNodes = make(map[string]string)\n\t\t\t}\n", Expect: "R2"},
@@ -73,6 +74,27 @@ func runC13(c *an.Ctx) {
 	replayEveryLine(c, "R7")
 	c.Rule("R6 (shared with C12) the leave marker, like every line, is buffered before any compaction attempt and unconditionally")
 	appendOrderRule(c, "R6")
+	// R8: Snapshotter.Leave hands the leave over by rendezvous
+	c.Rule("R8 Snapshotter.Leave returns only after the snapshot goroutine took the leave: every make(chan) stored to Snapshotter.leaveCh is unbuffered (a buffered hand-over lets Leave return, and a following Shutdown win the select, before the marker is written)")
+	{
+		n := 0
+		for _, a := range an.FieldAccesses(c.P.FuncsIn(serf), "Snapshotter", "leaveCh") {
+			if a.Kind != "store" {
+				continue
+			}
+			n++
+			mk, ok := an.Strip(a.Val).(*ssa.MakeChan)
+			sz := int64(-1)
+			if ok {
+				sz, _ = an.ConstInt(mk.Size)
+				if _, isC := an.ConstInt(mk.Size); !isC {
+					sz = -1
+				}
+			}
+			c.Add(ok && sz == 0, "R8", "leaveCh:rendezvous:"+an.FuncName(a.Fn), a.Instr, "Snapshotter.leaveCh is an unbuffered channel", "make(chan) capacity")
+		}
+		c.Floor("R8", "stores to Snapshotter.leaveCh", n, 1)
+	}
 	// R1
 	if lv := sm(c, "R1", "Serf", "Leave"); lv != nil {
 		noSnap := an.EdgesImplying(lv, an.Cmp{L: "$0.snapshotter", Op: "==", R: "c:nil"})
